@@ -149,6 +149,18 @@ def indirect_job(job):
         pp.ParserElement.disable_memoization()
 
 
+def in_context(prog, root, it, itr, inputs, meta):
+    """the recursive rule used by alternatives that share a prefix extending past it:  E .. E step E | E .. E | E  — the
+    finished recursion is visited several times at one location, and the sequence that fails late has appended to what
+    it was handed (a memo entry handed out uncopied would keep those tokens)"""
+    def wrap(p, r):
+        return p + [["cx_sep", "Literal", ".."], ["cx_kw", "Literal", "step"], ["cx1", "And", [r, "cx_sep", r, "cx_kw", r]],
+                    ["cx2", "And", [r, "cx_sep", r]], ["cx_root", "MatchFirst", ["cx1", "cx2", r]]]
+    a, b, c = inputs[0], inputs[1], inputs[2]
+    ins = [f"{a}..{b}", f"{a} .. {b} step {c}", a, f"{a}..{b} step", f"{b}..{c}..{a}", f"{a}..", ""]
+    return dict(prog=wrap(prog, root), root="cx_root", it_prog=wrap(it, itr), it_root="cx_root", inputs=ins, meta=meta)
+
+
 def run(ctx):
     common.import_pyparsing()
     ctx.proof_leg("PPProofs.Props.C04", THEOREMS)
@@ -181,6 +193,8 @@ def run(ctx):
                          entries=[("parse", ()), ("parseAll", ())], modes=[("lr", None), ("lr", 1), ("lr", 2)]))
         ojobs.append(dict(prog=prog, root=root, it_prog=it, it_root=itr, inputs=inputs, meta=meta))
         ojobs.append(dict(prog=prog, root=root, it_prog=it, it_root=itr, inputs=inputs[:5], meta=meta, parse_all=True))
+        if i % 3 == 0:
+            ojobs.append(in_context(prog, root, it, itr, inputs, meta))
     corr_parse.run_jobs(ctx, "model(parseLR)-vs-real:direct-lr", jobs)
     mult = 4 if (ctx.broken and not ctx.fail_inputs) else 1
     for k in range(mult):
